@@ -347,7 +347,8 @@ class GeffMetadata(BaseModel):
         if isinstance(store, zarr.Group):
             raise TypeError("Unsupported type for store_like: should be a `zarr.storage.StoreLike")
 
-        group = zarr.open_group(store)
+        # read-only: looking for metadata must not create a group where there is none
+        group = zarr.open_group(store, mode="r")
 
         # Check if geff_version exists in zattrs
         if "geff" not in group.attrs:
